@@ -95,7 +95,7 @@ CHECKS += [
               "thorough <=6) through the real resolve_dynamic_wires with symbolic register labels / static label / min_int against an independent "
               "lifetime model (no aliasing of live wires, never on the static wire, |0> when requested); the same histories through "
               "devices.preprocess.device_resolve_dynamic_wires without device wires (1-3 static integer wires with symbolic labels in arbitrary tape order) "
-              "and with device wire lists mixing free and static symbolic labels.",
+              "and with device wire lists mixing free and static symbolic labels, including wires that only a measurement reads.",
          note=E5_NOTE + "Stub: measure(w, reset=True) replaced by a marker op. restored=True is honoured as the user's promise. Outside: equality of simulation results with fresh wires, magic-state allocation.",
          technique="lifted execution of the real wire manager/transform on z3 integers; inductive-step and bounded-history validity queries"),
     dict(property_id="C47", category="proof", engine=E5,
@@ -590,7 +590,7 @@ CHECKS += [
               "preprocessing programs of default.qubit, default.mixed and reference.qubit. Every returned operation must be executable by the device under an independent criterion (matrix / "
               "leading state preparation / declared operation set) and act on device wires; every returned circuit is evaluated by the matrix-route oracle (not the device simulator), the "
               "program's post-processing is applied and z3 proves all results equal to the oracle's results for the original circuit for all angles; an operation without matrix and "
-              "decomposition must raise DeviceError.",
+              "decomposition must raise DeviceError, and default.mixed must reject observables outside its declared set also as scalar multiples or nested in products / sums.",
          note=PROOF_NOTE + " Category 'other' (partial): execution by the device simulators (C26-C28), sampling programs, mid-circuit measurements (C21), gradient-specific programs and compiled / "
               "external devices are outside; reference.qubit on the QFT circuit is decided in the thorough tier only. This check found F27 (default.mixed kept a non-leading StatePrep; fixed).",
          technique="lifted execution of the devices' preprocessing programs on z3 angle terms; matrix-route oracle; z3 QF_NRA equality proofs plus structural support checks"),
